@@ -1,0 +1,31 @@
+//go:build verif
+
+/*
+   Copyright The containerd Authors.
+
+   Licensed under the Apache License, Version 2.0 (the "License");
+   you may not use this file except in compliance with the License.
+   You may obtain a copy of the License at
+
+       http://www.apache.org/licenses/LICENSE-2.0
+
+   Unless required by applicable law or agreed to in writing, software
+   distributed under the License is distributed on an "AS IS" BASIS,
+   WITHOUT WARRANTIES OR CONDITIONS OF ANY KIND, either express or implied.
+   See the License for the specific language governing permissions and
+   limitations under the License.
+*/
+
+package task
+
+// VerifTraceHook, when set (verification harness only, build tag "verif"), is called at the
+// manager's synchronisation points while prioritizedTaskStartNotifyMu is held, so the order of
+// calls is the order the manager itself observes: "do" (a prioritized task was registered) and
+// "decide" (a background body is about to be started or refused; v = prioritized tasks seen).
+var VerifTraceHook func(ev string, v int64)
+
+func verifTrace(ev string, v int64) {
+	if h := VerifTraceHook; h != nil {
+		h(ev, v)
+	}
+}
